@@ -146,6 +146,8 @@ def run(ck):
 
     common.import_results(ck, _C15, "4", "IoLoopInner", "2")
     common.import_results(ck, _C16, "2", None, "2")
+    # a ping sent to a source from inside its own callback is really written (no "already pending" shortcut): C03.2
+    common.ping_infra(ck, "2")
 
     # ---- clause 3: nobody returns holding a guard; no nested incompatible borrow -----------------------
     nret = 0
